@@ -13,6 +13,8 @@ from nutree.common import CONNECTORS
 
 ID = "C16"
 LEVEL = "exploration"
+TECHNIQUE = 'bounded-exhaustive + Hypothesis; reference renderer of the documented prefix grammar and a prefix decoder'
+LEVEL_TEXT = 'exploration with an exhaustive part: all forests up to the bound x starts x 29 styles x title/add_self; the decoder reconstructs the shape from the prefixes alone'
 RULE = (
     "case = (forest, typed?, options); exhaustive part: every ordered forest with <= N nodes x every start (tree, "
     "each node) x every style of the CONNECTORS table + 'list' x title in {default, False, True, text} (tree) / "
